@@ -163,19 +163,67 @@ def expect_attr(base: str, name: str, way: str):
 def debug_string_ok(s, origin):
     """DebugUndefined "returns the debug info when printed": documented exactly
     for a missing name ('{{ foo }}'); otherwise it must be a '{{ ... }}' string
-    mentioning the hint or the missing attribute/item."""
+    mentioning the hint or the missing attribute/item.  origin["hint_weak"]:
+    the hint is outside the documented domain ("Either None or a string with
+    the error message": blank or not a str) - using it and falling back to
+    the generated text are both accepted."""
     if not isinstance(s, str):
         return False
+    braces = s.startswith("{{") and s.endswith("}}")
     if origin.get("hint"):
-        return s.startswith("{{") and s.endswith("}}") and origin["hint"] in s
+        if braces and origin["hint"] in s:
+            return True
+        if not origin.get("hint_weak"):
+            return False
     if origin.get("plain_name"):
         return s == "{{ %s }}" % origin["plain_name"]
-    return s.startswith("{{") and s.endswith("}}") and any(n in s for n in origin["names"])
+    return braces and any(n in s for n in origin["names"])
 
 
 def message_ok(msg, origin):
     """The error message names the missing variable/attribute; a hint, when
-    given, is used as the error message."""
+    given, is used as the error message (Environment.undefined: "The `hint` is
+    used as error message for the exception if provided, otherwise the error
+    message will be generated from `obj` and `name` automatically").  An
+    origin without hint text (hint None or the empty string: there is no
+    message to use) must therefore name origin["names"]."""
     if origin.get("hint"):
-        return origin["hint"] in msg
+        if origin["hint"] in msg:
+            return True
+        if not origin.get("hint_weak"):
+            return False
     return any(n in msg for n in origin["names"])
+
+
+# ---- boundary values of the constructor arguments (hint, obj, name) -------------
+# _undefined_hint: "Either None or a string with the error message";
+# _undefined_obj: the owner object; _undefined_name: "The name for the undefined
+# variable / attribute or just None if no such information exists".
+def ctor_arg_info(hint, name, obj_given, exc="UndefinedError"):
+    """What the documentation demands of the message of an undefined built from
+    these constructor arguments -> origin info for message_ok / debug_string_ok.
+
+    hint: a str with visible text -> the hint is the message (strict);
+          None or '' -> no hint: the message is generated and names `name`;
+          anything else (blank str, non-str) -> undocumented, either is accepted.
+    name: a non-empty str must occur in the generated message, any other
+          non-None value by its repr (ints and tuples are the keys of missing
+          elements); None / '' carry no information - nothing to name."""
+    info = {"kind": "args", "hint": None, "plain_name": None, "exc": exc}
+    if isinstance(hint, str) and hint.strip():
+        info["hint"] = hint
+    elif hint is None or (isinstance(hint, str) and hint == ""):
+        pass
+    else:
+        info["hint"] = str(hint) or None
+        info["hint_weak"] = True
+    if name is None or (isinstance(name, str) and name == ""):
+        info["names"] = [""]
+        info["unnamed"] = True
+    elif isinstance(name, str):
+        info["names"] = [name]
+        if not obj_given:
+            info["plain_name"] = name
+    else:
+        info["names"] = [repr(name)]
+    return info
